@@ -286,6 +286,7 @@ def tagParser (T : LexTables) (cfg : SetCfg) : Nat → Tok → Tok → PS → DS
     else if name == b!"cycle" then do
       let (es, asName, silent, args) ← cycleArgs cfg fuel [] args
       if args.remaining > 0 then .error (args.err "Malformed cycle-tag.")
+      else if es.length == 0 then .error (args.err "'cycle' tag requires at least one argument.")
       else
         let id := ds.cs.nextId
         pure (.tagCycle id es asName silent, some close, { ds with cs := { ds.cs with nextId := id + 1 } })
@@ -393,13 +394,16 @@ def tagParser (T : LexTables) (cfg : SetCfg) : Nat → Tok → Tok → PS → DS
           let (e, args) ← parseExpression cfg fuel args
           let (ifExists, args) := match args.matchIdentVal b!"if_exists" with | some a => (true, a) | none => (false, args)
           pure (IncludeSrc.lazy e ifExists, args, ds) : PM (IncludeSrc × PS × DS))
-      let (pairs, only, args) ← (match args.matchIdentVal b!"with" with
-        | some args => includePairs cfg fuel [] args
-        | none => pure ([], false, args) : PM (List (Bytes × Expr) × Bool × PS))
-      if args.remaining > 0 then .error (args.err "Malformed 'include'-tag arguments.")
-      else match src with
-        | .empty => pure (.tagInclude .empty false [], some close, ds)
-        | _ => pure (.tagInclude src only pairs, some close, ds)
+      match src with
+      | .empty =>
+        -- `return &tagIncludeEmptyNode{}` happens before the remaining arguments are looked at
+        pure (.tagInclude .empty false [], some close, ds)
+      | _ => do
+        let (pairs, only, args) ← (match args.matchIdentVal b!"with" with
+          | some args => includePairs cfg fuel [] args
+          | none => pure ([], false, args) : PM (List (Bytes × Expr) × Bool × PS))
+        if args.remaining > 0 then .error (args.err "Malformed 'include'-tag arguments.")
+        else pure (.tagInclude src only pairs, some close, ds)
     else if name == b!"lorem" then
       let (count, args) : Int64 × PS := match args.matchType .num with
         | some (c, a) => ((Val.str c.val).toInt, a)
